@@ -228,7 +228,27 @@ func (e *exec) maybeFault(prios []uint, dividend uint, dist map[uint]uint, eligi
 		d = 1
 	}
 	done := false
-	if f.Over {
+	if f.Outside {
+		listed := map[uint]bool{}
+		for _, p := range prios {
+			listed[p] = true
+		}
+		e.mu.Lock()
+		var outside []uint
+		for p := range e.configured {
+			if !listed[p] {
+				outside = append(outside, p)
+			}
+		}
+		e.mu.Unlock()
+		sort.Slice(outside, func(i, j int) bool { return outside[i] > outside[j] })
+		if len(outside) > 0 {
+			dist[outside[0]] += d
+		} else {
+			dist[prios[0]] += d
+		}
+		done = true
+	} else if f.Over {
 		dist[prios[0]] += d
 		done = true
 	} else {
@@ -1142,6 +1162,24 @@ func execute1(t *testing.T, s Script, leakScan bool, budget time.Duration) Trace
 			}
 		}
 		defer func() {
+			scan := func() {
+				e.wait()
+				time.Sleep(10)
+				e.wait()
+				after := bubble.LibGoroutines()
+				for id, fr := range after {
+					if _, ok := before[id]; !ok {
+						tr.Leaked = append(tr.Leaked, fr)
+					}
+				}
+			}
+			// The discipline has terminated (on its own, or Stop() has returned): nothing of it
+			// may be left, and that must not depend on the context being cancelled afterwards.
+			scanned := false
+			if leakScan && (tr.Terminated || tr.StopReturned) {
+				scan()
+				scanned = true
+			}
 			// clean up: stop the discipline if it still runs, end the helpers
 			if e.ad.cancel != nil {
 				e.ad.cancel()
@@ -1174,16 +1212,8 @@ func execute1(t *testing.T, s Script, leakScan bool, budget time.Duration) Trace
 					}
 				}
 			}
-			if leakScan && (tr.Terminated || tr.StopReturned) {
-				e.wait()
-				time.Sleep(10)
-				e.wait()
-				after := bubble.LibGoroutines()
-				for id, fr := range after {
-					if _, ok := before[id]; !ok {
-						tr.Leaked = append(tr.Leaked, fr)
-					}
-				}
+			if leakScan && !scanned && (tr.Terminated || tr.StopReturned) {
+				scan()
 			}
 		}()
 		if err := e.build(); err != nil {
